@@ -213,12 +213,23 @@ func serializeDatetimeFromUnixNano(buf *bytes.Buffer, t int64) {
 
 func serializeString(buf *bytes.Buffer, s string) {
 	buf.Write([]byte{91, 83, 93})
-	buf.WriteString(strings.ToUpper(option.TrimSpace(s)))
+	buf.WriteString(escapeKeyDelimiter(strings.ToUpper(option.TrimSpace(s))))
 }
 
 func serializeCaseSensitiveString(buf *bytes.Buffer, s string) {
 	buf.Write([]byte{91, 83, 93})
-	buf.WriteString(s)
+	buf.WriteString(escapeKeyDelimiter(s))
+}
+
+var keyDelimiterEscaper = strings.NewReplacer("\\", "\\\\", ":", "\\:")
+
+// escapeKeyDelimiter keeps the delimiter of comparison keys out of string values, so that
+// different value lists can never be serialized to the same key.
+func escapeKeyDelimiter(s string) string {
+	if !strings.ContainsAny(s, ":\\") {
+		return s
+	}
+	return keyDelimiterEscaper.Replace(s)
 }
 
 func serializeBoolean(buf *bytes.Buffer, b bool) {
